@@ -33,6 +33,10 @@ type World struct {
 	// (simulated time passes while runnable goroutines stay parked; at most 12 times
 	// and ~1.3 s in total per run). Worlds whose oracle asserts exact timing say no.
 	Stall func(prop string) bool
+	// LongStallMs, if set, gives the length of the one long stall of a run for prop
+	// (0 = the default of 1.2 s). Only for properties whose oracles are evaluated at
+	// settled points and assert nothing about how long the server takes.
+	LongStallMs func(prop string) int
 	// NontrivialProbe names the probe that marks a run as non-trivial for prop.
 	Nontrivial func(prop string, r *Result) bool
 }
@@ -324,6 +328,9 @@ func Main(t *testing.T) {
 		if w.Stall != nil && w.Stall(prop) {
 			// in a quarter of the runs
 			cfg.StallPm = []int{0, 0, 0, 0, 0, 0, 15, 60}[sc.Intn(8)]
+			if w.LongStallMs != nil {
+				cfg.LongStallMs = w.LongStallMs(prop)
+			}
 		}
 		sb, err := json.Marshal(script)
 		if err != nil {
